@@ -85,7 +85,7 @@ GroupIds(d) == IdsOf(d.groups)
 
 (* ------------------------------------------------------------ the empty document: VMF() *)
 NewEnt(id, cls) ==
-    [id |-> id, keys |-> [f \in {"classname"} |-> [k |-> "classname", v |-> cls]], fix |-> EmptyFn,
+    [id |-> id, keys |-> [f \in {"classname"} |-> [k |-> "classname", v |-> cls, fx |-> EmptyFn]], fix |-> EmptyFn,
      outs |-> <<>>, solids |-> <<>>, hidden |-> FALSE, groups |-> <<>>, vis |-> <<>>, visShown |-> TRUE,
      visAuto |-> TRUE, color |-> C255, logical |-> "[0 " \o ToString(id) \o "]", comments |-> ""]
 DefaultSet ==
@@ -97,9 +97,10 @@ EmptyDoc == [set |-> DefaultSet, vis |-> <<>>, groups |-> <<>>, cams |-> <<>>, c
 
 (* ------------------------------------------------------------ builder operations (public API) *)
 \* Entity.__setitem__: case-insensitive, the first spelling of a key is kept
-SetKeyE(x, k, f, v) ==
-    [x EXCEPT !.keys = IF f \in DOMAIN x.keys THEN [x.keys EXCEPT ![f].v = v]
-                       ELSE [g \in DOMAIN x.keys \cup {f} |-> IF g = f THEN [k |-> k, v |-> v] ELSE x.keys[g]]]
+\* fx: the fixup a keyvalue named replace + two or more digits denotes (empty for every other name), see MoveAmb
+SetKeyE(x, k, f, v, fx) ==
+    [x EXCEPT !.keys = IF f \in DOMAIN x.keys THEN [x.keys EXCEPT ![f].v = v, ![f].fx = fx]
+                       ELSE [g \in DOMAIN x.keys \cup {f} |-> IF g = f THEN [k |-> k, v |-> v, fx |-> fx] ELSE x.keys[g]]]
 DelKeyE(x, f) == [x EXCEPT !.keys = [g \in DOMAIN x.keys \ {f} |-> x.keys[g]]]
 \* EntityFixup.__setitem__: folded variable, "$" optional, lowest unused replaceNN index
 SetFixE(x, bare, f, v) ==
@@ -161,7 +162,7 @@ Apply(d, a) ==
       [] a.op = "AddGroup" -> [d EXCEPT !.groups = Append(@, [id |-> LowestFree(GroupIds(d)), shown |-> a.shown,
                                                                auto |-> a.auto, color |-> a.color])]
       [] a.op = "AddEnt" -> [d EXCEPT !.ents = Append(@, NewEnt(LowestFree(EntIds(d)), a.cls))]
-      [] a.op = "SetKey" -> UpdEnt(d, a.e, LAMBDA x : SetKeyE(x, a.k, a.f, a.v))
+      [] a.op = "SetKey" -> UpdEnt(d, a.e, LAMBDA x : SetKeyE(x, a.k, a.f, a.v, a.fx))
       [] a.op = "DelKey" -> UpdEnt(d, a.e, LAMBDA x : DelKeyE(x, a.f))
       [] a.op = "SetFixup" -> UpdEnt(d, a.e, LAMBDA x : SetFixE(x, a.bare, a.f, a.val))
       [] a.op = "DelFixup" -> UpdEnt(d, a.e, LAMBDA x : DelFixE(x, a.f))
@@ -206,7 +207,22 @@ KeepDisp(o, disp) ==
          IN  [disp EXCEPT !.verts = [i \in 1..Len(disp.verts) |-> KV(i)]]
 KeepSide(o, f) == [f EXCEPT !.disp = KeepDisp(o, @)]
 KeepSolid(o, s) == [s EXCEPT !.sides = MapSeq(LAMBDA f : KeepSide(o, f), @)]
-KeepEnt(o, e) == [e EXCEPT !.solids = MapSeq(LAMBDA s : KeepSolid(o, s), @)]
+\* What the format cannot express.  In the file an entity is a list of "key" "value" lines, and a line whose key is
+\* replace + two or more decimal digits IS an instance fixup ("replaceNN" "$var value"; the writer names the 100th
+\* replace100).  A keyvalue with such a name therefore comes back as the fixup it denotes (fx = [idx, var, val, f],
+\* stated by the projection from name and value); nothing else about it may change.  Every other name - "replace",
+\* replace + ONE digit, "replace0x", "replacement01", and the structural words "id" (non-numeric value), "solid",
+\* "editor", "connections", "hidden", "group" used as plain keys - is an ordinary keyvalue and survives.
+\* (Builders keep the denoted index and variable distinct from the entity's real fixups.)
+Amb(e) == {f \in DOMAIN e.keys : DOMAIN e.keys[f].fx # {}}
+MoveAmb(e) ==
+    [e EXCEPT !.keys = [f \in DOMAIN e.keys \ Amb(e) |-> e.keys[f]],
+              !.fix = [g \in DOMAIN e.fix \cup {e.keys[f].fx.f : f \in Amb(e)} |->
+                          IF g \in DOMAIN e.fix THEN e.fix[g]
+                          ELSE LET x == e.keys[CHOOSE f \in Amb(e) : e.keys[f].fx.f = g].fx
+                               IN  [var |-> x.var, val |-> x.val, idx |-> x.idx]]]
+HasAmb(d) == \E i \in 1..Len(EntsOf(d)) : Amb(EntsOf(d)[i]) # {}
+KeepEnt(o, e) == [MoveAmb(e) EXCEPT !.solids = MapSeq(LAMBDA s : KeepSolid(o, s), @)]
 NewMapVer(o, d) == IF o.inc THEN d.set.mapVer + 1 ELSE d.set.mapVer
 KeepSet(o, d) ==
     LET s == d.set
@@ -223,7 +239,7 @@ KeepWorld(o, d) ==
     LET w == KeepEnt(o, d.world)
         mk == IF "mapversion" \in DOMAIN w.keys THEN w.keys["mapversion"].k ELSE "mapversion"
     IN  [w EXCEPT !.keys = [f \in DOMAIN w.keys \cup {"mapversion"} |->
-                               IF f = "mapversion" THEN [k |-> mk, v |-> ToString(NewMapVer(o, d))]
+                               IF f = "mapversion" THEN [k |-> mk, v |-> ToString(NewMapVer(o, d)), fx |-> EmptyFn]
                                ELSE w.keys[f]]]
 Keep(o, d) ==
     [set |-> KeepSet(o, d), vis |-> d.vis, groups |-> d.groups,
@@ -341,13 +357,21 @@ MapTok(ps, t) == IF t.ik = "" THEN t ELSE [t EXCEPT !.n = MapId(ps[t.ik], @)]
 FirstDiff(a, b) == CHOOSE i \in 1..(Min2(Len(a), Len(b)) + 1) :
                       /\ (i <= Min2(Len(a), Len(b)) => a[i] # b[i])
                       /\ \A j \in 1..(i - 1) : a[j] = b[j]
-TextClauses(ps, t1, t2) ==
-    LET m == MapSeq(LAMBDA t : MapTok(ps, t), t1)
-        i == FirstDiff(m, t2)
-    IN  IF m = t2 THEN {}
-        ELSE IF Len(m) = Len(t2) THEN {"text:" \o m[j].c : j \in {j \in 1..Len(m) : m[j] # t2[j]}}
-        ELSE IF i > Len(m) THEN {"text:longer"}
-        ELSE {"text:" \o m[i].c}
+\* amb: when the document holds a keyvalue that the format reads as a fixup, that line moves from the (sorted)
+\* keyvalues to the fixup lines in the second text; then the replaceNN-named lines are compared as a set and the
+\* rest of the text in order.
+TextClauses(ps, t1, t2, amb) ==
+    LET m0 == MapSeq(LAMBDA t : MapTok(ps, t), t1)
+        m == IF amb THEN SelectSeq(m0, LAMBDA t : ~t.amb) ELSE m0
+        u == IF amb THEN SelectSeq(t2, LAMBDA t : ~t.amb) ELSE t2
+        i == FirstDiff(m, u)
+        AmbSet(q) == {[kf |-> q[j].kf, v |-> q[j].v, d |-> q[j].d, c |-> q[j].c] : j \in {j \in 1..Len(q) : q[j].amb}}
+    IN  (IF amb THEN C(AmbSet(m0) = AmbSet(t2), "text:fixup-lines")
+         ELSE {})
+        \cup (IF m = u THEN {}
+              ELSE IF Len(m) = Len(u) THEN {"text:" \o m[j].c : j \in {j \in 1..Len(m) : m[j] # u[j]}}
+              ELSE IF i > Len(m) THEN {"text:longer"}
+              ELSE {"text:" \o m[i].c})
 
 (* ------------------------------------------------------------ Skeleton: the structure the exported text must have *)
 \* Independent of the reader: the block/key structure of the VMF format for document d under options o, as a
@@ -411,8 +435,8 @@ EntSk(o, d, e, isWorld) ==
         nkeys == IF isWorld THEN Cardinality(DOMAIN e.keys \cup {"mapversion"}) ELSE Cardinality(DOMAIN e.keys)
         body == Blk("", dp, name,
                     Tk("kv", q \o "/id", dp + 1)
-                    \o Rep(nkeys, Tk("kv", q \o "/<key>", dp + 1))
-                    \o Rep(Cardinality(DOMAIN e.fix), Tk("kv", q \o "/replaceNN", dp + 1))
+                    \* keyvalue lines, then replaceNN fixup lines (one label: a keyvalue may be named like either)
+                    \o Rep(nkeys + Cardinality(DOMAIN e.fix), Tk("kv", q \o "/<key>", dp + 1))
                     \o Concat(LAMBDA s : SolidSk(o, q, dp + 1, s, isWorld), e.solids)
                     \o (IF e.outs # <<>>
                         THEN Blk(q, dp + 1, "connections", Rep(Len(e.outs), Tk("kv", q \o "/connections/<output>", dp + 2)))
